@@ -219,6 +219,35 @@ def P_cli(ctx, bin_):
         hit = sorted(reach & sorts)
         ctx.ob(rule, "no-sort-after-construction@%s" % run.where(t.get("loc")).split(":")[-1] if False else "no-sort-after-construction", not hit, where=run.where(t.get("loc")),
                expected="no sort reachable after from_parser", found=[run.where(run.blocks[x]["term"].get("loc")) for x in hit[:3]])
+    # every sort call is controlled by its own flag: --lx -> varsort_lexi (byte-wise order), --an -> varsort_alphanum
+    from rules import C15
+    dflags = flow.Defs(run)
+    fs = {}
+    for bb_, t_ in run.terminators():
+        if t_["k"] != "switch" or t_["d"]["k"] not in ("copy", "move"):
+            continue
+        e_ = dflags.expr_operand(t_["d"])
+        inv = False
+        if e_[0] == "unop" and e_[1] == "Not":
+            e_, inv = e_[2], True
+        if e_[0] == "field" and e_[1] == ("param", 1) and e_[2] in ("sort_lex", "sort_alphan"):
+            zero = [x[1] for x in t_["targets"] if x[0] == "0"]
+            if zero:
+                f_t, t_t = zero[0], t_["otherwise"]
+                if inv:
+                    f_t, t_t = t_t, f_t
+                fs[bb_] = (e_[2], t_t, f_t)
+    preds = run.preds()
+    n_s = 0
+    for sb in sorted(sorts):
+        t = run.blocks[sb]["term"]
+        callee = flow.last(ir.callee_path(ir.callee_of(t)) or "")
+        ctl = C15.controlling(run, preds, fs, sb)
+        want = {"varsort_lexi": "sort_lex", "varsort_alphanum": "sort_alphan"}.get(callee)
+        flags = sorted(f for f, pol in ctl if f in ("sort_lex", "sort_alphan"))
+        n_s += 1
+        ctx.ob(rule, "sort-under-own-flag:%s" % callee, want is not None and flags == [want] and all(pol for f, pol in ctl if f == want), where=run.where(t.get("loc")),
+               expected="%s only under --%s" % (callee, "lx" if want == "sort_lex" else "an"), found="controlled by %s" % sorted(ctl))
     # sorts and constructions use the parser that was parsed: dominated by the parse call on the same parser local
     d = flow.Defs(run)
     dom = run.dominators()
